@@ -179,9 +179,10 @@ class Live(JupyterMixin, RenderHook):
                     # jupyter last refresh must occur after console pop render hook
                     # i am not sure why this is needed
                     self.refresh()
-        if self.auto_refresh and self._refresh_thread is not None:
-            self._refresh_thread.join()
+            refresh_thread = self._refresh_thread
             self._refresh_thread = None
+        if refresh_thread is not None:
+            refresh_thread.join()
 
     def __enter__(self) -> "Live":
         self.start()
